@@ -83,6 +83,36 @@ pub fn bye<S: Src, const NS: usize, const B: usize>(s: &mut S) {
     packet_own::<S, _, B>(s, c.builder(), NS <= 31);
 }
 
+/// Text of concrete length `LEN` whose first `K` characters are two-byte characters (U+00E9).
+fn text_const<const LEN: usize, const K: usize>() -> Text<12> {
+    let mut bytes = [b'a'; 12];
+    let mut i = 0;
+    while i < 2 * K {
+        bytes[i] = if i % 2 == 0 { 0xc3 } else { 0xa9 };
+        i += 1;
+    }
+    Text { len: LEN, bytes }
+}
+
+/// Short *concrete* multi-byte reason (byte length != character count): with everything about
+/// the text constant, a size computed by walking the text is decided by constant propagation
+/// (the symbolic-length instances cannot afford `str` iteration).
+pub fn bye_const_utf8<S: Src, const LEN: usize, const K: usize>(s: &mut S) {
+    let c = ByeCfg::<1, 12>::draw_with(s, text_const::<LEN, K>());
+    packet_own::<S, _, 304>(s, c.builder(), true);
+}
+
+/// Same for an SDES item value (PRIV and not).
+pub fn sdes_const_utf8<S: Src, const LEN: usize, const K: usize>(s: &mut S) {
+    let type_ = s.u8();
+    let it = ItemCfg { type_, value: text_const::<LEN, K>(), prefix: Blob { len: 3, bytes: [0x5a; 12] } };
+    let ssrc = s.u32();
+    let padding = s.u8();
+    s.assume(type_ != 0);
+    let b = Sdes::builder().padding(padding).add_chunk(SdesChunk::builder(ssrc).add_item(it.builder()));
+    packet_own::<S, _, 304>(s, b, true);
+}
+
 pub fn app<S: Src>(s: &mut S) {
     let data = Blob::<72>::draw_len(s, 72);
     let c = AppCfg::draw_with(s, data);
@@ -395,6 +425,12 @@ common::register! {
     q_rr_1 = rr::<_, 1, 300> => 320,
     q_rr_31 = rr::<_, 31, 1020> => 320,
     q_rr_32 = rr::<_, 32, 1044> => 320,
+    q_bye_utf8_2 = bye_const_utf8::<_, 2, 1> => 16,
+    q_bye_utf8_4 = bye_const_utf8::<_, 4, 2> => 16,
+    q_bye_utf8_5 = bye_const_utf8::<_, 5, 2> => 16,
+    q_bye_utf8_7 = bye_const_utf8::<_, 7, 3> => 16,
+    q_sdes_utf8_2 = sdes_const_utf8::<_, 2, 1> => 3,
+    q_sdes_utf8_5 = sdes_const_utf8::<_, 5, 2> => 3,
     q_bye_0 = bye::<_, 0, 536> => 320,
     q_bye_2 = bye::<_, 2, 544> => 320,
     q_bye_31 = bye::<_, 31, 660> => 320,
